@@ -93,7 +93,7 @@ TOML = '[SimpleBounds]\nmax_iterations = 40\n[Estimation]\nsave_iterations = "Tr
 NAME_POOL = ['b10', 'b2', 'alpha', 'zeta', 'B_TIME', 'asc=1', 'β_coût', 'x y', 'a=b=c', 'Z', 'a']
 
 
-def build(names, tag, rows=3):
+def build(names, tag, rows=3, variant=0):
     """a concave likelihood in the given free parameters; parameter k is non-finite beyond ~1.01.
     `tag` None: the model is not named (default model name).  `rows` = 4: a sample size that is a power of
     two, so that the value returned by a scaled call times N is exactly the log likelihood on the data."""
@@ -102,7 +102,9 @@ def build(names, tag, rows=3):
     import biogeme.database as db
     from biogeme.expressions import Beta, Variable, exp
 
-    df = pd.DataFrame({'X': [0.25, 0.5, -0.25, 0.375][:rows], 'Y': [700.0] * rows})
+    # variant > 0: another data set (another model of the same directory has its own data); dyadic values
+    xs = [v + 0.125 * variant * (1 if i % 2 else -2) for i, v in enumerate([0.25, 0.5, -0.25, 0.375])]
+    df = pd.DataFrame({'X': xs[:rows], 'Y': [700.0] * rows})
     d = db.Database('t', df)
     X = Variable('X')
     Y = Variable('Y')
@@ -234,7 +236,16 @@ def tokens_of_file(text, sorted_names):
 
 # ----- sessions: several public entry points, option combinations and renames on ONE object --------------
 
-MODEL_NAMES = ['pilot', 'final', 'm', 'M', 'm2', 'run 1', 'modèle', 'a.iter', 'b=1', 'x.tmp', '__m']
+MODEL_NAMES = ['pilot', 'final', 'm', 'M', 'm2', 'run 1', 'modèle', 'a.iter', 'b=1', 'x.tmp', '__m', 'mnl:time', 'a?b', 'q*']
+# model NAMES as an input dimension: names of one group differ by one special character / case / blank / look-alike
+# (the map name -> __<name>.iter is injective; the code's file name must be observed to be).  No '/' (not a file name)
+# and no NUL.
+NEAR_NAMES = [
+    ['mnl:time', 'mnl_time', 'mnl?time', 'mnl*time', 'mnl|time', 'mnl time', 'mnl<time', 'mnl>time', 'mnl"time', 'mnl\\time', 'MNL_time', 'mnl-time', 'mnl.time'],
+    ['modèle', 'modele', 'mode\u0300le', 'MODÈLE', 'modéle', 'mod_le'],
+    ['a?b', 'a*b', 'a_b', 'a b', 'A_b', 'a__b', 'a_b ', ' a_b', 'a_b.iter'],
+    ['run1', 'run 1', 'run_1', 'Run1', 'run１', 'run1.', 'run1~', 'run01'],
+]
 
 
 def parse_iter(sorted_names, text):
@@ -293,13 +304,18 @@ def gen_session(rng, k):
     bootstrapping, and assignments of modelName at any moment (before the first use, after it, back to an earlier name).
     Returns (names of the objects at construction, ops); every op has the number 'obj' of its object."""
     name0 = None if rng.random() < 0.45 else rng.choice(MODEL_NAMES)
-    shape = rng.choice(['free', 'free', 'late_name', 'mixed_scale', 'objects', 'est_rename_est', 'zero_start'])
+    shape = rng.choice(['free', 'free', 'late_name', 'mixed_scale', 'objects', 'est_rename_est', 'zero_start', 'near_names', 'near_names'])
     n_obj = 1
-    if shape == 'objects' or rng.random() < 0.15:
+    if shape in ('objects', 'near_names') or rng.random() < 0.15:
         n_obj = rng.choice([2, 2, 3])
     objs = [name0]
     for _ in range(n_obj - 1):
         objs.append(rng.choice([name0, name0, rng.choice(MODEL_NAMES), None]))
+    pool = MODEL_NAMES
+    if shape == 'near_names':
+        # different models (each with its own data) whose names nearly collide; renames stay inside the group
+        pool = rng.choice(NEAR_NAMES)
+        objs = rng.sample(pool, n_obj)
     n = rng.randint(3, 9)
     ops, pts = [], []
     first_scaled = rng.random() < 0.5
@@ -330,7 +346,7 @@ def gen_session(rng, k):
             ops.append({'k': 'eval', 'x': x, 'scaled': scaled, 'hessian': rng.random() < 0.3, 'bhhh': rng.random() < 0.2,
                         'aslist': rng.random() < 0.3})
         elif r < 0.72:
-            ops.append({'k': 'rename', 'name': rng.choice(MODEL_NAMES)})
+            ops.append({'k': 'rename', 'name': rng.choice(pool)})
         elif r < 0.81:
             x = gen_point(rng, k, pts, kinds=('rand', 'better', 'nonfinite'))
             ops.append({'k': 'check', 'x': x})
@@ -346,12 +362,18 @@ def gen_session(rng, k):
             if ops[-1]['k'] == 'estimate' and rng.random() < 0.2:
                 ops[-1]['recycle'] = True          # no pickle file exists: the estimation is performed
         else:
-            ops.append({'k': 'rename', 'name': rng.choice(MODEL_NAMES)})
+            ops.append({'k': 'rename', 'name': rng.choice(pool)})
         ops[-1]['obj'] = o
     boots = [i for i, op in enumerate(ops) if op['k'] == 'bootstrap']
     if boots and rng.random() < 0.7:
-        ops.append(ops.pop(boots[0]))        # mostly as the last operation: what follows it is masked by finding FC15-boot
-    return objs, ops
+        ops.append(ops.pop(boots[0]))        # mostly as the last operation
+    if shape == 'near_names':
+        # interleaved use: every object evaluates at least once, and one of them is estimated at the end
+        for o in range(n_obj):
+            x = gen_point(rng, k, pts, ('rand', 'better', 'zero'))
+            ops.insert(rng.randint(0, len(ops)), {'k': 'eval', 'x': x, 'scaled': rng.random() < 0.5, 'hessian': False, 'bhhh': False, 'aslist': False, 'obj': o})
+        ops.append({'k': 'estimate', 'obj': rng.randrange(n_obj)})
+    return objs, ops, shape == 'near_names'
 
 
 WHERE_SESSION = 'iteration file over a session on one object (entry points, scaled flags, modelName)'
@@ -378,7 +400,7 @@ def toml_for(algo):
     return TOML if not algo else TOML + f'optimization_algorithm = "{algo}"\n'
 
 
-def run_session(names, name0, ops, rows=4, algo=None):
+def run_session(names, name0, ops, rows=4, algo=None, own_data=False):
     """real code: every derivative evaluation of the objects is recorded by wrapping the public method (object, point,
     flags, model name at the call, log likelihood, finite gradient, whether the engine held a bootstrap resample, all
     iteration files after the call)"""
@@ -386,7 +408,7 @@ def run_session(names, name0, ops, rows=4, algo=None):
 
     events, errors = [], []
     with core.scratch(toml_for(algo)):
-        Bs = [build(names, nm, rows=rows) for nm in norm_objs(name0)]
+        Bs = [build(names, nm, rows=rows, variant=(i if own_data else 0)) for i, nm in enumerate(norm_objs(name0))]
         for B in Bs:
             B.generate_html = False
             B.generate_pickle = False
@@ -484,11 +506,12 @@ def run_session(names, name0, ops, rows=4, algo=None):
         for ev in events:
             if ev['k'] == 'eval':
                 try:
-                    ref.append(float(Bs[0].calculate_likelihood(np.array(ev['x'], dtype=float), scaled=False)))
+                    ref.append(float(Bs[ev.get('obj', 0)].calculate_likelihood(np.array(ev['x'], dtype=float), scaled=False)))
                 except Exception:  # noqa: BLE001
                     ref.append(None)
         others = sorted(p for p in os.listdir('.') if p != 'biogeme.toml' and not (p.startswith('__') and p.endswith('.iter')))
-    return {'sorted_names': sorted_names, 'start_names': start_names, 'events': events, 'errors': errors, 'ref': ref, 'others': others}
+        listing = sorted(p for p in os.listdir('.') if p.endswith('.iter'))
+    return {'listing': listing, 'sorted_names': sorted_names, 'start_names': start_names, 'events': events, 'errors': errors, 'ref': ref, 'others': others}
 
 
 def oracle_session(sorted_names, events):
@@ -573,8 +596,10 @@ def oracle_session(sorted_names, events):
     return None
 
 
-def session_case(names, name0, ops, algo=None):
+def session_case(names, name0, ops, algo=None, own_data=False):
     c = {'session': True, 'names': names, 'name0': name0, 'ops': ops}
+    if own_data:
+        c['own_data'] = True
     if algo:
         c['algo'] = algo
     return c
@@ -613,9 +638,13 @@ def apply_session_oracle(res, case, out):
     return False
 
 
-def check_session(ctx, res, names, name0, ops, algo=None):
-    out = run_session(names, name0, ops, algo=algo)
-    case = session_case(names, name0, ops, algo)
+def check_session(ctx, res, names, name0, ops, algo=None, own_data=False):
+    out = run_session(names, name0, ops, algo=algo, own_data=own_data)
+    case = session_case(names, name0, ops, algo, own_data)
+    if own_data:
+        res.tally('session with nearly colliding model names, one data set per object')
+    if any(c in str(n) for n in norm_objs(name0) + [o.get('name') for o in ops if o['k'] == 'rename'] for c in '<>:"\\|?*'):
+        res.tally('session with a model name holding one of < > : " \\ | ? *')
     if any(o['k'] in ('estimate', 'quick_estimate', 'bootstrap') for o in ops):
         res.tally(f'session algorithm {algo or "automatic"}')
     events = out['events']
@@ -678,6 +707,10 @@ def check_session(ctx, res, names, name0, ops, algo=None):
         if model is None or len(model) != len(observed):
             res.diverge('IterFile.wtrace on a session', case, ans[0], len(observed))
             return
+        fn = ans[0].get('file_names')
+        if fn is None or sorted(fn) != out['listing']:
+            res.diverge('names of the iteration files in the directory at the end of a session vs IterFile.iterFileName (C15.file_name_injective)',
+                        case, ans[0].get('file_names'), out['listing'])
         for i, (mo, ob) in enumerate(zip(model, observed)):
             if mo != ob:
                 res.diverge(f'iteration files after recorded event {i} of a session ({events[i]["k"]})',
@@ -740,6 +773,13 @@ SESSION_CORPUS = [
         {'k': 'eval', 'x': [0.5, 0.5], 'scaled': False, 'hessian': False, 'bhhh': False, 'obj': 0},
         {'k': 'eval', 'x': [0.4, 0.4], 'scaled': True, 'hessian': False, 'bhhh': False, 'obj': 1},
         {'k': 'quick_estimate', 'obj': 0}]},
+    # two models whose names differ by one special character, each with its own data, used in turn
+    {'names': ['b10', 'b2'], 'name0': ['mnl:time', 'mnl_time'], 'own_data': True, 'ops': [
+        {'k': 'eval', 'x': [0.5, 0.5], 'scaled': False, 'hessian': False, 'bhhh': False, 'obj': 0},
+        {'k': 'eval', 'x': [0.25, -0.5], 'scaled': True, 'hessian': False, 'bhhh': False, 'obj': 1},
+        {'k': 'eval', 'x': [0.375, -0.75], 'scaled': False, 'hessian': False, 'bhhh': False, 'obj': 0},
+        {'k': 'estimate', 'obj': 1},
+        {'k': 'estimate', 'obj': 0}]},
     # bootstrapping: the resamples must not reach the iteration file (finding FC15-boot)
     {'names': ['b', 'a'], 'name0': ['boot'], 'ops': [
         {'k': 'bootstrap', 'obj': 0},
@@ -1393,15 +1433,15 @@ def check(ctx) -> Result:
     mark('histories')
     # sessions on one object: entry points x option combinations x renames
     for c in SESSION_CORPUS:
-        check_session(ctx, res, c['names'], c['name0'], c['ops'])
+        check_session(ctx, res, c['names'], c['name0'], c['ops'], own_data=bool(c.get('own_data')))
         res.tally('corpus')
     for _ in range(ctx.n(110, 900)):
         if len([v for v in res.violations if v.get('where') != WHERE_BOOT]) > 3:
             break
         k = rng.randint(1, 3)
         names = rng.sample(NAME_POOL, k)
-        name0, ops = gen_session(rng, k)
-        check_session(ctx, res, names, name0, ops, algo=pick_algo(rng, ops))
+        name0, ops, own = gen_session(rng, k)
+        check_session(ctx, res, names, name0, ops, algo=pick_algo(rng, ops), own_data=own)
     mark('sessions')
     # files that were not written by the same model (other parameter sets sharing the model name, edited by hand)
     for i in range(ctx.n(25, 300)):
@@ -1415,7 +1455,7 @@ def check(ctx) -> Result:
         x_old = None if i == 0 else [rng.choice([rng.uniform(-1, 0.0), 0.0]) for _ in range(k)]
         x_new = [0.16 * (j + 1) for j in range(k)]
         tagc += 1
-        crash_experiment(ctx, res, names, rng.choice([f'm{tagc}', 'run 1', 'a.iter']), x_old, x_new)
+        crash_experiment(ctx, res, names, rng.choice([f'm{tagc}', 'run 1', 'a.iter', 'mnl:time', 'a?b*']), x_old, x_new)
     # a whole estimate() stopped after a sample of its primitives (several saves, each over the previous one)
     for i in range(ctx.n(1, 4)):
         k = rng.randint(1, 2)
@@ -1571,10 +1611,10 @@ def search(ctx, res, broken):
     for i in range(100):
         k = rng.randint(1, 3)
         names = rng.sample(NAME_POOL, k)
-        name0, ops = gen_session(rng, k)
+        name0, ops, own = gen_session(rng, k)
         r2 = Result()
         algo = pick_algo(rng, ops)
-        if apply_session_oracle(r2, session_case(names, name0, ops, algo), run_session(names, name0, ops, algo=algo)):
+        if apply_session_oracle(r2, session_case(names, name0, ops, algo, own), run_session(names, name0, ops, algo=algo, own_data=own)):
             keep = [v for v in r2.violations if v.get('where') != WHERE_BOOT or not any(f.get('id') == 'FC15-boot' and f.get('kind') == 'known' for f in ctx.findings)]
             if keep:
                 res.violations.extend(keep[:1])
@@ -1611,8 +1651,8 @@ def replay(ctx, obj):
     out = {'replayed': obj.get('what')}
     if case.get('session'):
         r = Result()
-        o = run_session(case['names'], case['name0'], case['ops'], algo=case.get('algo'))
-        fails = apply_session_oracle(r, session_case(case['names'], case['name0'], case['ops'], case.get('algo')), o)
+        o = run_session(case['names'], case['name0'], case['ops'], algo=case.get('algo'), own_data=bool(case.get('own_data')))
+        fails = apply_session_oracle(r, session_case(case['names'], case['name0'], case['ops'], case.get('algo'), bool(case.get('own_data'))), o)
         out.update({'property_fails': bool(fails), 'why': r.violations[0]['what'] if r.violations else None,
                     'recorded': session_view(o['events'], len(o['events']))})
     elif 'points' in case:
